@@ -9,6 +9,7 @@ use nostr::{Event, EventId, JsonUtil, Timestamp, UnsignedEvent};
 use openmls::prelude::ApplicationMessage;
 
 use crate::MDK;
+use crate::error::Error;
 
 use super::Result;
 
@@ -51,6 +52,13 @@ where
         let mut rumor: UnsignedEvent = UnsignedEvent::from_json(bytes)?;
 
         self.verify_rumor_author(&rumor.pubkey, sender_credential)?;
+
+        // The id a message is stored under must be the NIP-01 hash of the rumor itself.
+        // `from_json` keeps whatever id the sender put in the JSON; an id that does not
+        // match would let a member overwrite another member's stored message.
+        rumor
+            .verify_id()
+            .map_err(|_e| Error::Message("Rumor id does not match its content".to_string()))?;
 
         let rumor_id: EventId = rumor.id();
 
